@@ -1,4 +1,6 @@
 import EncodingRs.Lemmas.MaxLenVariant
+import EncodingRs.Thm.C07Life
+import EncodingRs.Thm.C08
 /-!
 # C06 — decoder side: an admissible stop policy exists for every capacity (non-vacuity of `Admissible`)
 
@@ -818,5 +820,220 @@ theorem gb18030_cap3_none :
       have := h.2.1 (by decide)
       revert this; decide
     | n + 2 => exact hmal _ (by simp [Budget.isZero]) (by simp [Budget.isZero, Budget.dec])
+
+/-! ## the BOM life cycle (`Decoder`): the leaves of `Decoder.rawCall`
+
+Every result of `Decoder.rawCall` is one of the leaves of `Lemmas.LifeLeaf.rawCall_leaf`: a call of
+some current decoder on the source (`checkingEnd`), or the replay of one / two withheld bytes
+followed by the source (`afterOne`, `afterTwo`).  For each of these, budgets exist for which the
+call does not reach the "output buffer must have been too small" panic and all its inner calls are
+admissible in the sense the driver checks (`Thm.C07.InnerAdmissible`): the replay into a destination
+of at least `minCap` is never stopped before its first byte, and the call on the source goes on in
+what the replay left of the destination. -/
+
+open EncodingRs.Thm.C07 EncodingRs.Thm.C08 EncodingRs.Thm.C10 EncodingRs.Lemmas.LifeLeaf EncodingRs.Lemmas.Core
+
+/-- a `Decoder` call that does not panic and whose inner variant-decoder calls are all admissible -/
+def DGood {F : Fam} (k : Sink) (cap : Nat) : DRes F → Prop
+  | .panic => False
+  | .ok _ _ _ _ inner => InnerAdmissible k cap inner
+
+/-- a family `G` running as the current decoder of a `Decoder F` -/
+structure Emb (F G : Fam) where
+  e : G.σ → Cur F
+  call_eq : ∀ k s src last b, (e s).call k src last b =
+    ⟨(Model.call G k s src last b).res, (Model.call G k s src last b).read, (Model.call G k s src last b).out,
+      e (Model.call G k s src last b).st, (Model.call G k s src last b).stopNeed⟩
+
+def embNominal (F : Fam) : Emb F F := ⟨.nominal, fun _ _ _ _ _ => rfl⟩
+def embUtf8 (F : Fam) : Emb F utf8Fam := ⟨.utf8, fun _ _ _ _ _ => rfl⟩
+def embUtf16be (F : Fam) : Emb F (utf16Fam true) := ⟨.utf16be, fun _ _ _ _ _ => rfl⟩
+def embUtf16le (F : Fam) : Emb F (utf16Fam false) := ⟨.utf16le, fun _ _ _ _ _ => rfl⟩
+
+theorem admT_of {G : Fam} {k : Sink} {cap : Nat} {r : CallRes G.σ} {x : Res} (h : Admissible G k cap r)
+    (hres : r.res = x) : AdmT k cap (r.out, x, r.stopNeed) := by
+  subst hres; exact h
+
+theorem checkingEnd_good {F G : Fam} (E : Emb F G) (k : Sink) (I : G.σ → Prop) (L : Laws G) (S : StopLaw G k I)
+    (s : G.σ) (hi : I s) (src : List Nat) (hb : ∀ b ∈ src, b < 256) (last : Bool) (cap off : Nat)
+    (hcap : minCap k ≤ cap) :
+    ∃ b2, DGood k cap (checkingEnd k (E.e s) src last b2 off [] []) := by
+  obtain ⟨b2, h, _⟩ := call_exists_x G k I L S s hi (src.drop off)
+    (fun b hb' => hb b (List.mem_of_mem_drop hb')) last cap (Or.inl hcap)
+  refine ⟨b2, ?_⟩
+  unfold checkingEnd
+  simp only [E.call_eq, List.nil_append, DGood, InnerAdmissible]
+  exact ⟨h, trivial⟩
+
+theorem afterOne_good {F G : Fam} (E : Emb F G) (k : Sink) (I : G.σ → Prop) (L : Laws G) (S : StopLaw G k I)
+    (hnb : ∀ s b, G.need k s b ≤ minCap k)
+    (s : G.σ) (hi : I s) (src : List Nat) (hb : ∀ b ∈ src, b < 256) (last : Bool) (cap : Nat)
+    (fb : Nat) (hfb : fb < 256) (hcap : minCap k ≤ cap) (hp : fb = 0xBB ∨ G.pend s = none) :
+    ∃ b1 b2, DGood k cap (afterOne k (E.e s) src last fb b1 b2) := by
+  have hb1 : ∀ x ∈ [fb], x < 256 := by
+    intro x hx; simp only [List.mem_singleton] at hx; rw [hx]; exact hfb
+  obtain ⟨b1, h1, h2, h3⟩ := call_exists_x G k I L S s hi [fb] hb1 false cap (Or.inl hcap)
+  cases hres : (Model.call G k s [fb] false b1).res with
+  | inputEmpty =>
+    obtain ⟨a, b, c⟩ := h2 hres rfl
+    obtain ⟨b2, h4, _⟩ := call_exists_x G k I L S _ c src hb last
+      (cap - unitsOfList k (Model.call G k s [fb] false b1).out) (Or.inr ⟨b, by omega⟩)
+    refine ⟨b1, b2, ?_⟩
+    unfold afterOne
+    simp only [E.call_eq, hres]
+    unfold checkingEnd
+    simp only [E.call_eq, List.drop_zero, DGood, InnerAdmissible, List.cons_append, List.nil_append]
+    exact ⟨admT_of h1 hres, h4, trivial⟩
+  | malformed l a =>
+    refine ⟨b1, .unlimited, ?_⟩
+    unfold afterOne
+    simp only [E.call_eq, hres, DGood, InnerAdmissible]
+    exact ⟨admT_of h1 hres, trivial⟩
+  | outputFull =>
+    refine ⟨b1, .unlimited, ?_⟩
+    rcases hp with hbb | hpn
+    · subst hbb
+      unfold afterOne
+      simp only [E.call_eq, hres, if_true, DGood, InnerAdmissible]
+      exact ⟨admT_of h1 hres, trivial⟩
+    · exfalso
+      have hlt := call_outputFull_lt G k [fb] s b1 hres (by simp)
+      have hread : (Model.call G k s [fb] false b1).read = 0 := by
+        simp only [List.length_singleton] at hlt; omega
+      have := h3 hpn hres hread fb [] rfl
+      have := hnb s fb
+      omega
+
+theorem afterTwo_good {F G : Fam} (E : Emb F G) (k : Sink) (I : G.σ → Prop) (L : Laws G) (S : StopLaw G k I)
+    (hnb : ∀ s b, G.need k s b ≤ minCap k)
+    (s : G.σ) (hi : I s) (src : List Nat) (hb : ∀ b ∈ src, b < 256) (last : Bool) (cap : Nat)
+    (hcap : minCap k ≤ cap) (hpn : G.pend s = none) :
+    ∃ b1 b2, DGood k cap (afterTwo k (E.e s) src last b1 b2) := by
+  have hb1 : ∀ x ∈ [0xEF, 0xBB], x < 256 := by decide
+  obtain ⟨b1, h1, h2, h3⟩ := call_exists_x G k I L S s hi [0xEF, 0xBB] hb1 false cap (Or.inl hcap)
+  cases hres : (Model.call G k s [0xEF, 0xBB] false b1).res with
+  | inputEmpty =>
+    obtain ⟨a, b, c⟩ := h2 hres rfl
+    obtain ⟨b2, h4, _⟩ := call_exists_x G k I L S _ c src hb last
+      (cap - unitsOfList k (Model.call G k s [0xEF, 0xBB] false b1).out) (Or.inr ⟨b, by omega⟩)
+    refine ⟨b1, b2, ?_⟩
+    unfold afterTwo
+    simp only [E.call_eq, hres]
+    unfold checkingEnd
+    simp only [E.call_eq, List.drop_zero, DGood, InnerAdmissible, List.cons_append, List.nil_append]
+    exact ⟨admT_of h1 hres, h4, trivial⟩
+  | malformed l a =>
+    refine ⟨b1, .unlimited, ?_⟩
+    unfold afterTwo
+    simp only [E.call_eq, hres]
+    split
+    · simp only [DGood, InnerAdmissible]; exact ⟨admT_of h1 hres, trivial⟩
+    · simp only [DGood, InnerAdmissible]; exact ⟨admT_of h1 hres, trivial⟩
+  | outputFull =>
+    refine ⟨b1, .unlimited, ?_⟩
+    have hlt := call_outputFull_lt G k [0xEF, 0xBB] s b1 hres (by simp)
+    by_cases hr1 : (Model.call G k s [0xEF, 0xBB] false b1).read = 1
+    · unfold afterTwo
+      simp only [E.call_eq, hres, hr1, if_true, DGood, InnerAdmissible]
+      exact ⟨admT_of h1 hres, trivial⟩
+    · exfalso
+      have hread : (Model.call G k s [0xEF, 0xBB] false b1).read = 0 := by
+        simp only [List.length_cons, List.length_nil] at hlt; omega
+      have := h3 hpn hres hread 0xEF [0xBB] rfl
+      have := hnb s 0xEF
+      omega
+
+/-- the current decoder has no delayed output -/
+def curFlushed {F : Fam} : Cur F → Prop
+  | .nominal s => F.pend s = none
+  | .utf8 s => utf8Fam.pend s = none
+  | .utf16be s => (utf16Fam true).pend s = none
+  | .utf16le s => (utf16Fam false).pend s = none
+
+theorem cur_checkingEnd_good (v : Gen.Variant) (k : Sink) (c : Cur (famOfVariant v)) (hi : curInv v c)
+    (src : List Nat) (hb : ∀ b ∈ src, b < 256) (last : Bool) (cap off : Nat) (hcap : minCap k ≤ cap) :
+    ∃ b2, DGood k cap (checkingEnd k c src last b2 off [] []) := by
+  cases c with
+  | nominal s =>
+    exact checkingEnd_good (embNominal _) k _ (famOfVariant_laws v) (variant_stopLaw v k) s hi src hb last cap off hcap
+  | utf8 s =>
+    exact checkingEnd_good (embUtf8 _) k _ (famOfVariant_laws .utf8) (variant_stopLaw .utf8 k) s hi src hb last
+      cap off hcap
+  | utf16be s =>
+    exact checkingEnd_good (embUtf16be _) k _ (famOfVariant_laws .utf16Be) (variant_stopLaw .utf16Be k) s hi src hb
+      last cap off hcap
+  | utf16le s =>
+    exact checkingEnd_good (embUtf16le _) k _ (famOfVariant_laws .utf16Le) (variant_stopLaw .utf16Le k) s hi src hb
+      last cap off hcap
+
+theorem cur_afterOne_good (v : Gen.Variant) (k : Sink) (c : Cur (famOfVariant v)) (hi : curInv v c)
+    (src : List Nat) (hb : ∀ b ∈ src, b < 256) (last : Bool) (cap : Nat) (fb : Nat) (hfb : fb < 256)
+    (hcap : minCap k ≤ cap) (hp : fb = 0xBB ∨ curFlushed c) :
+    ∃ b1 b2, DGood k cap (afterOne k c src last fb b1 b2) := by
+  cases c with
+  | nominal s =>
+    exact afterOne_good (embNominal _) k _ (famOfVariant_laws v) (variant_stopLaw v k)
+      ((famOfVariant_needsBounded v k).1) s hi src hb last cap fb hfb hcap hp
+  | utf8 s =>
+    exact afterOne_good (embUtf8 _) k _ (famOfVariant_laws .utf8) (variant_stopLaw .utf8 k)
+      ((famOfVariant_needsBounded .utf8 k).1) s hi src hb last cap fb hfb hcap hp
+  | utf16be s =>
+    exact afterOne_good (embUtf16be _) k _ (famOfVariant_laws .utf16Be) (variant_stopLaw .utf16Be k)
+      ((famOfVariant_needsBounded .utf16Be k).1) s hi src hb last cap fb hfb hcap hp
+  | utf16le s =>
+    exact afterOne_good (embUtf16le _) k _ (famOfVariant_laws .utf16Le) (variant_stopLaw .utf16Le k)
+      ((famOfVariant_needsBounded .utf16Le k).1) s hi src hb last cap fb hfb hcap hp
+
+theorem cur_afterTwo_good (v : Gen.Variant) (k : Sink) (c : Cur (famOfVariant v)) (hi : curInv v c)
+    (src : List Nat) (hb : ∀ b ∈ src, b < 256) (last : Bool) (cap : Nat)
+    (hcap : minCap k ≤ cap) (hp : curFlushed c) :
+    ∃ b1 b2, DGood k cap (afterTwo k c src last b1 b2) := by
+  cases c with
+  | nominal s =>
+    exact afterTwo_good (embNominal _) k _ (famOfVariant_laws v) (variant_stopLaw v k)
+      ((famOfVariant_needsBounded v k).1) s hi src hb last cap hcap hp
+  | utf8 s =>
+    exact afterTwo_good (embUtf8 _) k _ (famOfVariant_laws .utf8) (variant_stopLaw .utf8 k)
+      ((famOfVariant_needsBounded .utf8 k).1) s hi src hb last cap hcap hp
+  | utf16be s =>
+    exact afterTwo_good (embUtf16be _) k _ (famOfVariant_laws .utf16Be) (variant_stopLaw .utf16Be k)
+      ((famOfVariant_needsBounded .utf16Be k).1) s hi src hb last cap hcap hp
+  | utf16le s =>
+    exact afterTwo_good (embUtf16le _) k _ (famOfVariant_laws .utf16Le) (variant_stopLaw .utf16Le k)
+      ((famOfVariant_needsBounded .utf16Le k).1) s hi src hb last cap hcap hp
+
+/-- **every leaf of `Decoder.rawCall` has good budgets** (decoders reachable from `Decoder.new`:
+`LifeInv`; destination of at least `minCap`): the call of the current or of a fresh UTF-8 / UTF-16
+decoder on the source minus a BOM, the replay of one withheld byte, the replay of two. -/
+theorem leaf_exists (v : Gen.Variant) (k : Sink) (d : Decoder (famOfVariant v)) (hd : LifeInv v d)
+    (src : List Nat) (hb : ∀ b ∈ src, b < 256) (last : Bool) (cap : Nat) (hcap : minCap k ≤ cap) :
+    (∀ off, ∃ b2, DGood k cap (checkingEnd k d.cur src last b2 off [] [])) ∧
+    (∀ off, ∃ b2, DGood k cap
+      (checkingEnd k (.utf8 utf8Fam.init : Cur (famOfVariant v)) src last b2 off [] [])) ∧
+    (∀ (be : Bool) off, ∃ b2, DGood k cap
+      (checkingEnd k (if be then .utf16be (utf16Fam true).init else .utf16le (utf16Fam false).init :
+        Cur (famOfVariant v)) src last b2 off [] [])) ∧
+    (∀ fb, replayOne d.life = some fb → ∃ b1 b2, DGood k cap (afterOne k d.cur src last fb b1 b2)) ∧
+    (d.life = .seenUtf8Second → ∃ b1 b2, DGood k cap (afterTwo k d.cur src last b1 b2)) := by
+  have hfresh : sniffingLife d.life = true → curFlushed d.cur := by
+    intro h
+    rw [hd.fresh h]
+    exact (famOfVariant_laws v).init_pend
+  refine ⟨?_, ?_, ?_, ?_, ?_⟩
+  · intro off
+    exact cur_checkingEnd_good v k d.cur hd.cur src hb last cap off hcap
+  · intro off
+    exact cur_checkingEnd_good v k _ (curInv_utf8_init v) src hb last cap off hcap
+  · intro be off
+    exact cur_checkingEnd_good v k _ (curInv_utf16_init v be) src hb last cap off hcap
+  · intro fb hfb
+    refine cur_afterOne_good v k d.cur hd.cur src hb last cap fb (replayOne_lt _ _ hfb) hcap ?_
+    by_cases hbb : fb = 0xBB
+    · exact Or.inl hbb
+    · refine Or.inr (hfresh ?_)
+      revert hfb
+      cases d.life <;> simp [replayOne, sniffingLife] <;> omega
+  · intro hl
+    exact cur_afterTwo_good v k d.cur hd.cur src hb last cap hcap (hfresh (by rw [hl]; rfl))
 
 end EncodingRs.Thm.C06Exists
